@@ -1666,7 +1666,9 @@ static iwrc _fsm_reallocate(struct IWFS_FSM *f, off_t nlen, off_t *oaddr, off_t 
     if (naddr_blk != oaddr_blk) {
       RCC(rc, finish, fsm->pool.copy(&fsm->pool, *oaddr, (size_t) *olen, naddr_blk << fsm->bpow));
     }
-    RCC(rc, finish, _fsm_blk_deallocate_lw(fsm, oaddr_blk, olen_blk));
+    if (olen_blk) {
+      RCC(rc, finish, _fsm_blk_deallocate_lw(fsm, oaddr_blk, olen_blk));
+    }
     *oaddr = naddr_blk << fsm->bpow;
     *olen = sp << fsm->bpow;
   }
@@ -1688,6 +1690,9 @@ static iwrc _fsm_deallocate(struct IWFS_FSM *f, off_t addr, off_t len) {
   }
   if (addr & ((1ULL << fsm->bpow) - 1)) {
     return IWFS_ERROR_RANGE_NOT_ALIGNED;
+  }
+  if (length_blk < 1) {
+    return IW_ERROR_INVALID_ARGS;
   }
   rc = _fsm_ctrl_wlock(fsm);
   RCRET(rc);
